@@ -46,6 +46,8 @@ def run(ctx):
             qn = q.split()
             if qn[0] in ("QRaw", "QFloat", "QPtr", "QNested"):
                 q = f"{qn[0]} {qn[1]}%N"
+            elif qn[0] == "QPool":
+                q = "QPool [" + "; ".join(w + "%N" for w in qn[1].split(",")) + "]"
             elif qn[0] == "QEq":
                 q = f"QEq {qn[1]}%N {qn[2]}%N"
             elif qn[0] in ("QInt", "QIntChecked"):
@@ -59,7 +61,7 @@ def run(ctx):
         # when a proof obligation breaks)
         nd = 0
         for q, o in cases:
-            d = eq_oracle(q, o) if q.startswith("QEq") else oracle(q, o)
+            d = eq_oracle(q, o) if q.startswith("QEq") else pool_oracle(q, o) if q.startswith("QPool") else oracle(q, o)
             if d:
                 nd += 1
                 if nd <= 3:
@@ -162,6 +164,17 @@ def oracle(q, o):
             return e
         if not (r[14] == 1 and r[15] == int(t[1])):
             return f"nested_fn_marker({t[1]}) reads back as {r[15]}"
+    return None
+
+
+def pool_oracle(q, o):
+    """what add_constant hands back must read back bit for bit: constants[index_k] == word_k"""
+    ws = [int(x.replace("%N", "")) for x in q[len("QPool ["):-1].split(";")]
+    v = [int(x.strip("() ")) for x in o[:-2].strip("[]").split(";")]
+    idx, n, pool = v[:len(ws)], v[len(ws)], v[len(ws) + 1:]
+    for w, i in zip(ws, idx):
+        if i >= n or pool[i] != w:
+            return f"constant {w:#x} was stored in the pool but index {i} reads back {pool[i] if i < n else None:#x}"
     return None
 
 
